@@ -12,6 +12,10 @@
 mod contlib;
 #[path = "c01/seqcount.rs"]
 mod seqcount;
+#[path = "../session_matrix.rs"]
+mod session_matrix;
+#[path = "c01/confmatrix.rs"]
+mod confmatrix;
 use contlib::*;
 use ripd::*;
 use rv::sched::Sched;
@@ -1777,7 +1781,10 @@ fn main() {
     let mut wsg = CaseWriter::new(&a.out.join("sg"), "Model.Frames Model.Log Model.ContStore Model.SessGuard", "check_case_sg", "model_obs_sg", 40).with_base(1_000_000);
     let mut wpc = CaseWriter::new(&a.out.join("pc"), "Model.Frames Model.Log Model.ContStore Model.SessGuard Model.SeqCount", "check_case_pc", "model_obs_pc", 40).with_base(3_000_000);
     let mut waf = CaseWriter::new(&a.out.join("af"), "Model.Frames Model.Log Model.ContStore Model.SessGuard Model.SeqCount", "check_case_af", "model_obs_af", 40).with_base(4_000_000);
+    let mut whd = CaseWriter::new(&a.out.join("hd"), "Model.WireRun Gen.RequestHead", "check_head", "head_obs", 200).with_base(6_000_000);
     if !only_crash {
+        // session streams under every configuration switch session.rs branches on (request capture, stateless, tool_choice, ..)
+        confmatrix::config_matrix(&mut ctx, &mut wsg, &mut whd, a.seed, thorough);
         let mut r2 = Rng::new(a.seed ^ 0x5e9c_0417);
         seqcount::pipe_threaded(&mut ctx, &mut wpc, &mut r2, if thorough { 1500 } else { 150 });
         seqcount::grammar_sessions(&mut ctx, &mut wsg, &mut r2, if thorough { 120 } else { 20 });
@@ -1961,8 +1968,9 @@ fn main() {
     wsg.flush();
     wpc.flush();
     waf.flush();
+    whd.flush();
     ctx.res.distinct_nontrivial = ctx.distinct.count();
-    ctx.res.case_files = ctx.w.files.iter().chain(ctx.wmx.files.iter()).chain(wsg.files.iter()).chain(wpc.files.iter()).chain(waf.files.iter()).map(|p| p.display().to_string()).collect();
+    ctx.res.case_files = ctx.w.files.iter().chain(ctx.wmx.files.iter()).chain(wsg.files.iter()).chain(wpc.files.iter()).chain(waf.files.iter()).chain(whd.files.iter()).map(|p| p.display().to_string()).collect();
     ctx.res.write(&a.out);
     println!("c01: {} schedules, {} oracle violations", ctx.leaves, ctx.res.oracle_violations.len());
 }
